@@ -259,3 +259,1541 @@ def i_add(x: IVal, y: IVal, sign: int = 1) -> IVal:
     for t, k in py[1].items():
         terms[t] = terms.get(t, 0) + sign * k
     return i_lin(px[0] + sign * py[0], terms)
+
+
+# ---------------------------------------------------------------------------------------------- the evaluator
+class Frame:
+    _ids = itertools.count()
+
+    def __init__(self, f: FuncInfo):
+        self.f = f
+        self.id = next(Frame._ids)
+        self.env: dict[str, tuple[Any, int]] = {}
+        self.returns: list = []
+
+    def set(self, name: str, val: Any) -> None:
+        # a fresh version per assignment: a term (frame, name, version) denotes exactly one value
+        self.env[name] = (val, next(Frame._ids))
+
+
+class KeyInterp:
+    """Abstract interpretation of the string expressions of the key-forming methods of one class.
+
+    Nothing is executed: statements are walked structurally (assignments, if/else with join, the replacement loop over a
+    literal table, returns); strings are abstract (AStr alternatives), integers are linear forms over ``len(variable)``
+    terms so that a slice bound can be related to the other parts of a concatenation."""
+
+    def __init__(self, repo: Repo, cls_qual: str, *, prefix_nonempty: bool):
+        self.repo = repo
+        self.cls = cls_qual
+        self.prefix_nonempty = prefix_nonempty
+        self.terms: dict[tuple, SVal] = {}
+        self.slices: list[tuple[FuncInfo, ast.AST, IVal, Optional[int]]] = []
+        self.unsupported: list[tuple[FuncInfo, ast.AST, str]] = []
+        self.calls: list[tuple[FuncInfo, ast.Call, str]] = []
+
+    # -- integer bounds
+    def lb(self, v: IVal) -> Optional[int]:
+        """Lower bound (None = none)."""
+        if v.kind == 'const':
+            return v.a
+        if v.kind == 'lin':
+            tot = v.a
+            for t, k in v.b:
+                sv = self.terms.get(t)
+                lo = min(a.minlen for a in sv.alts) if sv else 0
+                his = [a.maxlen for a in sv.alts] if sv else [None]
+                hi = None if any(h is None for h in his) else max(his)
+                if k > 0:
+                    tot += k * lo
+                elif hi is None:
+                    return None
+                else:
+                    tot += k * hi
+            return tot
+        if v.kind == 'max':
+            bs = [b for b in (self.lb(x) for x in v.a) if b is not None]
+            return max(bs) if bs else None
+        if v.kind in ('min', 'alt'):
+            bs = [self.lb(x) for x in v.a]
+            return None if any(b is None for b in bs) else min(bs)
+        return None
+
+    def ub(self, v: IVal) -> Optional[int]:
+        """Upper bound (None = unbounded)."""
+        if v.kind == 'const':
+            return v.a
+        if v.kind == 'lin':
+            tot = v.a
+            for t, k in v.b:
+                sv = self.terms.get(t)
+                lo = min(a.minlen for a in sv.alts) if sv else 0
+                his = [a.maxlen for a in sv.alts] if sv else [None]
+                hi = None if any(h is None for h in his) else max(his)
+                if k < 0:
+                    tot += k * lo
+                elif hi is None:
+                    return None
+                else:
+                    tot += k * hi
+            return tot
+        if v.kind in ('max', 'alt'):
+            bs = [self.ub(x) for x in v.a]
+            return None if any(b is None for b in bs) else max(bs)
+        if v.kind == 'min':
+            bs = [b for b in (self.ub(x) for x in v.a) if b is not None]
+            return min(bs) if bs else None
+        return None
+
+    # -- calls into methods of the class
+    def method(self, name: str) -> Optional[FuncInfo]:
+        return self.repo.find_method(self.cls, name)
+
+    def call(self, f: FuncInfo, args: list, kwargs: dict, depth: int = 0) -> Any:
+        if depth > 4:
+            return TOP
+        fr = Frame(f)
+        a = f.node.args  # type: ignore[attr-defined]
+        params = [p.arg for p in a.posonlyargs + a.args]
+        if f.cls is not None and 'staticmethod' not in f.decorators and params:
+            fr.set(params[0], TopVal('self'))
+            params = params[1:]
+        defaults = dict(zip([p.arg for p in (a.posonlyargs + a.args)][::-1], list(a.defaults)[::-1]))
+        for p, d in zip(a.kwonlyargs, a.kw_defaults):
+            if d is not None:
+                defaults[p.arg] = d
+        names = params + [p.arg for p in a.kwonlyargs]
+        bound = dict(zip(params, args))
+        bound.update(kwargs)
+        for n in names:
+            if n in bound:
+                fr.set(n, bound[n])
+            elif n in defaults:
+                fr.set(n, self.ev(fr, defaults[n], depth))
+            else:
+                fr.set(n, TOP)
+        self.block(fr, f.node.body, depth)  # type: ignore[attr-defined]
+        out: Any = None
+        for r in fr.returns:
+            out = r if out is None else self.join(out, r)
+        return TOP if out is None else out
+
+    def join(self, a: Any, b: Any) -> Any:
+        if a == b:
+            return a
+        if isinstance(a, SVal) and isinstance(b, SVal):
+            return s_join(a, b)
+        if isinstance(a, IVal) and isinstance(b, IVal):
+            return IVal('alt', (a, b))
+        return TOP
+
+    # -- statements
+    def block(self, fr: Frame, stmts: list, depth: int) -> bool:
+        for s in stmts:
+            if isinstance(s, ast.Return):
+                fr.returns.append(self.ev(fr, s.value, depth) if s.value is not None else TOP)
+                return False
+            if isinstance(s, ast.Raise):
+                return False
+            if isinstance(s, (ast.Assign, ast.AnnAssign)):
+                value = s.value
+                targets = s.targets if isinstance(s, ast.Assign) else [s.target]
+                if value is None:
+                    continue
+                v = self.ev(fr, value, depth)
+                for t in targets:
+                    if isinstance(t, ast.Name):
+                        self.bind(fr, t.id, v)
+                    else:
+                        for n in ast.walk(t):
+                            if isinstance(n, ast.Name) and isinstance(n.ctx, ast.Store):
+                                self.bind(fr, n.id, TOP)
+                continue
+            if isinstance(s, ast.If):
+                t = self.truth(fr, s.test, depth)
+                if t is True:
+                    if not self.block(fr, s.body, depth):
+                        return False
+                    continue
+                if t is False:
+                    if not self.block(fr, s.orelse, depth):
+                        return False
+                    continue
+                env0 = dict(fr.env)
+                ft_a = self.block(fr, s.body, depth)
+                env_a = fr.env
+                fr.env = dict(env0)
+                ft_b = self.block(fr, s.orelse, depth)
+                env_b = fr.env
+                if ft_a and ft_b:
+                    fr.env = dict(env0)
+                    for n in set(env_a) | set(env_b):
+                        if env_a.get(n) == env_b.get(n):
+                            fr.env[n] = env_a[n]
+                        elif n in env_a and n in env_b:
+                            self.bind(fr, n, self.join(env_a[n][0], env_b[n][0]))
+                        else:
+                            self.bind(fr, n, TOP)
+                elif ft_a:
+                    fr.env = env_a
+                elif ft_b:
+                    fr.env = env_b
+                else:
+                    return False
+                continue
+            if isinstance(s, ast.For):
+                if self.replacement_loop(fr, s, depth):
+                    continue
+                self.unsupported.append((fr.f, s, 'loop'))
+                for n in ast.walk(s):
+                    if isinstance(n, ast.Name) and isinstance(n.ctx, ast.Store):
+                        self.bind(fr, n.id, TOP)
+                continue
+            if isinstance(s, ast.Expr):
+                if not isinstance(s.value, ast.Constant):
+                    self.ev(fr, s.value, depth)
+                continue
+            if isinstance(s, ast.Pass):
+                continue
+            self.unsupported.append((fr.f, s, type(s).__name__))
+            for n in ast.walk(s):
+                if isinstance(n, ast.Name) and isinstance(n.ctx, ast.Store):
+                    self.bind(fr, n.id, TOP)
+        return True
+
+    def bind(self, fr: Frame, name: str, v: Any) -> None:
+        if isinstance(v, SVal):
+            v = replace(v, term=None)
+        fr.set(name, v)
+        if isinstance(v, SVal):
+            self.terms[(fr.id, name, fr.env[name][1])] = v
+
+    def replacement_loop(self, fr: Frame, s: ast.For, depth: int) -> bool:
+        """``for k, v in TABLE.items(): x = x.replace(k, v)`` over a literal table: unrolled in table order."""
+        it = self.ev(fr, s.iter, depth)
+        if not (isinstance(it, DVal) and it.as_items and isinstance(s.target, ast.Tuple) and len(s.target.elts) == 2
+                and all(isinstance(e, ast.Name) for e in s.target.elts) and not s.orelse):
+            return False
+        if any(not isinstance(x, (ast.Assign, ast.Expr)) for x in s.body):
+            return False
+        kn, vn = (e.id for e in s.target.elts)  # type: ignore[attr-defined]
+        for k, v in it.items:
+            self.bind(fr, kn, s_lit(k))
+            self.bind(fr, vn, s_lit(v))
+            self.block(fr, s.body, depth)
+        return True
+
+    # -- conditions
+    def truth(self, fr: Frame, e: ast.AST, depth: int) -> Optional[bool]:
+        if isinstance(e, ast.UnaryOp) and isinstance(e.op, ast.Not):
+            t = self.truth(fr, e.operand, depth)
+            return None if t is None else not t
+        if isinstance(e, ast.BoolOp):
+            ts = [self.truth(fr, v, depth) for v in e.values]
+            if isinstance(e.op, ast.And):
+                return False if any(t is False for t in ts) else (True if all(t is True for t in ts) else None)
+            return True if any(t is True for t in ts) else (False if all(t is False for t in ts) else None)
+        if isinstance(e, ast.Attribute) and dotted(e) == 'self.prefix':
+            return True if self.prefix_nonempty else None
+        if isinstance(e, (ast.Name, ast.Constant, ast.JoinedStr)):
+            v = self.ev(fr, e, depth)
+            if isinstance(v, SVal):
+                if all(a.minlen >= 1 for a in v.alts):
+                    return True
+                if all(a.maxlen == 0 for a in v.alts):
+                    return False
+        return None
+
+    # -- expressions
+    def ev(self, fr: Frame, e: Optional[ast.AST], depth: int) -> Any:
+        if e is None:
+            return TOP
+        if isinstance(e, ast.Constant):
+            if isinstance(e.value, str):
+                return s_lit(e.value)
+            if isinstance(e.value, bool):
+                return TOP
+            if isinstance(e.value, int):
+                return i_const(e.value)
+            if isinstance(e.value, bytes):
+                try:
+                    return BVal(len(e.value), lit(e.value.decode('ascii')))
+                except UnicodeDecodeError:
+                    return BVal(len(e.value))
+            return TOP
+        if isinstance(e, ast.Name):
+            if e.id in fr.env:
+                v, ver = fr.env[e.id]
+                if isinstance(v, SVal):
+                    return replace(v, term=(fr.id, e.id, ver))
+                return v
+            return TOP
+        if isinstance(e, ast.Attribute):
+            if dotted(e) == 'self.prefix':
+                return SVal((AStr((Seg(None, 1 if self.prefix_nonempty else 0, None, 'self.prefix'),)),))
+            return TOP
+        if isinstance(e, ast.JoinedStr):
+            out = s_lit('')
+            out = replace(out, parts=())
+            for v in e.values:
+                if isinstance(v, ast.Constant):
+                    pv = s_lit(str(v.value))
+                    pv = replace(pv, parts=(Part(pv, None, node=v),))
+                elif isinstance(v, ast.FormattedValue) and v.conversion == -1 and v.format_spec is None:
+                    pv = self.as_part(fr, v.value, depth)
+                else:
+                    pv = s_top()
+                out = s_concat(out, pv)
+            return out
+        if isinstance(e, ast.BinOp) and isinstance(e.op, (ast.Add, ast.Sub)):
+            l, r = self.ev(fr, e.left, depth), self.ev(fr, e.right, depth)
+            if isinstance(l, IVal) and isinstance(r, IVal):
+                return i_add(l, r, 1 if isinstance(e.op, ast.Add) else -1)
+            if isinstance(e.op, ast.Add) and (isinstance(l, SVal) or isinstance(r, SVal)):
+                return s_concat(self.as_part(fr, e.left, depth), self.as_part(fr, e.right, depth))
+            return TOP
+        if isinstance(e, ast.IfExp):
+            t = self.truth(fr, e.test, depth)
+            if t is True:
+                return self.ev(fr, e.body, depth)
+            if t is False:
+                return self.ev(fr, e.orelse, depth)
+            return self.join(self.ev(fr, e.body, depth), self.ev(fr, e.orelse, depth))
+        if isinstance(e, ast.Dict):
+            if all(isinstance(k, ast.Constant) and isinstance(k.value, str) for k in e.keys) and \
+                    all(isinstance(v, ast.Constant) and isinstance(v.value, str) for v in e.values):
+                return DVal(tuple((k.value, v.value) for k, v in zip(e.keys, e.values)))  # type: ignore[union-attr]
+            return TOP
+        if isinstance(e, ast.Subscript):
+            return self.ev_subscript(fr, e, depth)
+        if isinstance(e, ast.Call):
+            return self.ev_call(fr, e, depth)
+        return TOP
+
+    def as_part(self, fr: Frame, e: ast.AST, depth: int) -> SVal:
+        v = self.ev(fr, e, depth)
+        if not isinstance(v, SVal):
+            return s_top()
+        if isinstance(e, ast.Name) or v.parts is None:
+            return replace(v, parts=(Part(replace(v, parts=None), v.term if isinstance(e, ast.Name) else None, node=e),))
+        return v
+
+    def ev_subscript(self, fr: Frame, e: ast.Subscript, depth: int) -> Any:
+        base = self.ev(fr, e.value, depth)
+        if not isinstance(e.slice, ast.Slice):
+            return TOP
+        sl = e.slice
+        if not isinstance(base, SVal):
+            return TOP
+        if sl.step is not None or (sl.lower is not None and not (isinstance(sl.lower, ast.Constant) and sl.lower.value == 0)):
+            self.unsupported.append((fr.f, e, 'slice with lower bound/step'))
+            return s_top()
+        if sl.upper is None:
+            return base
+        k = self.ev(fr, sl.upper, depth)
+        if not isinstance(k, IVal):
+            k = I_TOP
+        lo = self.lb(k)
+        self.slices.append((fr.f, e, k, lo))
+        if lo is None or lo < 0:
+            res = SVal(tuple(AStr(tuple(Seg(s.chars, 0, s.hi, s.tag) for s in a.segs)) for a in base.alts))   # a negative bound cuts from the end: no length bound
+            return replace(res, parts=(Part(res, None, bound=k, base=base, node=e),))
+        cap = self.ub(k)
+        res = SVal(tuple(a.prefix_slice(cap) for a in base.alts))
+        return replace(res, parts=(Part(res, None, bound=k, base=base, node=e),))
+
+    def ev_call(self, fr: Frame, c: ast.Call, depth: int) -> Any:
+        fn = c.func
+        args = [self.ev(fr, a, depth) for a in c.args]
+        kwargs = {k.arg: self.ev(fr, k.value, depth) for k in c.keywords if k.arg}
+        if isinstance(fn, ast.Attribute) and isinstance(fn.value, ast.Name) and fn.value.id in ('self', 'cls') \
+                and isinstance(fr.env.get(fn.value.id, (None,))[0], TopVal):
+            g = self.method(fn.attr)
+            if g is None:
+                return TOP
+            self.calls.append((fr.f, c, g.qualname))
+            return self.call(g, args, kwargs, depth + 1)
+        if isinstance(fn, ast.Attribute):
+            recv = self.ev(fr, fn.value, depth)
+            m = fn.attr
+            if isinstance(recv, SVal):
+                if m == 'replace' and len(args) == 2 and all(isinstance(a, SVal) and a.const is not None for a in args):
+                    return SVal(tuple(a.replaced(args[0].const, args[1].const) for a in recv.alts))
+                if m == 'rstrip' and len(args) == 1 and isinstance(args[0], SVal) and args[0].const is not None:
+                    return SVal(tuple(a.rstripped(frozenset(args[0].const)) for a in recv.alts))
+                if m == 'encode':
+                    return BVal(None)
+                return s_top()
+            if isinstance(recv, BVal):
+                if m == 'decode' and recv.text is not None:
+                    return SVal((recv.text,))
+                return s_top() if m == 'decode' else TOP
+            if isinstance(recv, HVal):
+                if m == 'digest':
+                    return BVal(recv.n)
+                if m == 'hexdigest':
+                    n = None if recv.n is None else 2 * recv.n
+                    return SVal((AStr((Seg(frozenset('0123456789abcdef'), n or 0, n),)),))
+                return TOP
+            if isinstance(recv, DVal) and m == 'items' and not args:
+                return DVal(recv.items, as_items=True)
+        r = self.repo.resolve(fr.f.module, fn) or ''
+        if r == 'len' and len(c.args) == 1:
+            a = args[0]
+            if isinstance(a, SVal) and a.term is not None:
+                return i_lin(0, {a.term: 1})
+            if isinstance(a, SVal):
+                los = [x.minlen for x in a.alts]
+                his = [x.maxlen for x in a.alts]
+                if None not in his and min(los) == max(his):
+                    return i_const(min(los))
+                t = ('anon', id(c), 0)
+                self.terms[t] = a
+                return i_lin(0, {t: 1})
+            return IVal('max', (i_const(0), I_TOP))     # a length is non-negative
+        if r in ('max', 'min') and len(args) >= 2 and all(isinstance(a, IVal) for a in args):
+            return IVal(r, tuple(args))
+        if r.startswith('hashlib.'):
+            algo = r.split('.', 1)[1]
+            sizes = {'md5': 16, 'sha1': 20, 'sha224': 28, 'sha256': 32, 'sha384': 48, 'sha512': 64, 'blake2b': 64, 'blake2s': 32}
+            n = sizes.get(algo)
+            ds = kwargs.get('digest_size')
+            if ds is not None:
+                n = ds.a if isinstance(ds, IVal) and ds.kind == 'const' else None
+            return HVal(n)
+        if r in ('base64.b64encode', 'base64.urlsafe_b64encode', 'base64.standard_b64encode') and args and isinstance(args[0], BVal):
+            alt: Optional[frozenset] = frozenset('+/')
+            if r.endswith('urlsafe_b64encode'):
+                alt = frozenset('-_')
+            ac = kwargs.get('altchars', args[1] if len(args) > 1 else None)
+            if ac is not None:
+                alt = ac.text.chars() if isinstance(ac, BVal) and ac.text is not None else None
+            alpha = None if alt is None else ALNUM | alt
+            n = args[0].n
+            if n is None:
+                return BVal(None, AStr((Seg(alpha, 0, None), Seg(frozenset('='), 0, 2))))
+            total = 4 * ((n + 2) // 3)
+            pad = (3 - n % 3) % 3
+            return BVal(total, AStr((Seg(alpha, total - pad, total - pad), Seg(frozenset('='), pad, pad))))
+        return TOP
+
+
+# ---------------------------------------------------------------------------------------------- key analysis
+@dataclass
+class KeyFacts:
+    fn: FuncInfo
+    value: Any
+    prefixed: bool = False            # every result is `{self.prefix}/` + name
+    name_alts: tuple = ()
+    name_chars: Optional[frozenset] = None
+    name_first: Optional[frozenset] = None
+    name_last: Optional[frozenset] = None
+    name_bound: Optional[int] = None
+    bound_why: str = ''
+
+
+def input_key() -> SVal:
+    """A handler id / record key: one or more characters of the id alphabet the property quantifies over."""
+    return SVal((AStr((Seg(ID_ALPHABET, 1, None, 'id'),)),))
+
+
+def _split_name(v: SVal) -> Optional[list[Part]]:
+    """Parts of the name (after the `{self.prefix}/` head) if the value is such a concatenation."""
+    if v.parts is None:
+        return None
+    seen_prefix = False
+    for i, p in enumerate(v.parts):
+        if len(p.val.alts) != 1:
+            return None
+        segs = p.val.alts[0].segs
+        for j, s in enumerate(segs):
+            if s.tag == 'self.prefix' and s.lo >= 1 and not seen_prefix:
+                seen_prefix = True
+                continue
+            if seen_prefix and s.chars == frozenset('/') and s.lo == 1 and s.hi == 1:
+                rest = segs[j + 1:]
+                tail = list(v.parts[i + 1:])
+                if rest:
+                    rv = SVal((AStr(tuple(rest)),))
+                    tail.insert(0, Part(rv, None, node=p.node))
+                return tail
+            return None
+    return None
+
+
+def analyse_key_fn(it: KeyInterp, name: str, key: SVal) -> KeyFacts:
+    f = it.method(name)
+    if f is None:
+        raise AnalysisError(f'scope anchor: {it.cls}.{name} not found')
+    v = it.call(f, [key], {})
+    facts = KeyFacts(f, v)
+    if not isinstance(v, SVal):
+        return facts
+    parts = _split_name(v)
+    if parts is None:
+        return facts
+    facts.prefixed = True
+    alts = [AStr()]
+    for p in parts:
+        alts = [a.concat(b) for a in alts for b in p.val.alts]
+    facts.name_alts = tuple(alts)
+    chars: Optional[frozenset] = frozenset()
+    first: Optional[frozenset] = frozenset()
+    last: Optional[frozenset] = frozenset()
+    for a in alts:
+        chars = None if chars is None or a.chars() is None else chars | a.chars()
+        first = None if first is None or a.first() is None else first | a.first()
+        last = None if last is None or a.last() is None else last | a.last()
+    facts.name_chars, facts.name_first, facts.name_last = chars, first, last
+
+    def maxlen(sv: SVal) -> Optional[int]:
+        hs = [a.maxlen for a in sv.alts]
+        return None if None in hs else max(hs)
+
+    slices = [p for p in parts if p.bound is not None]
+    others = [p for p in parts if p.bound is None]
+    if len(slices) != 1:
+        tot = 0
+        for p in parts:
+            m = maxlen(p.val)
+            if m is None:
+                facts.bound_why = f'part `{src(p.node)}` is unbounded'
+                return facts
+            tot += m
+        facts.name_bound, facts.bound_why = tot, 'sum of the parts'
+        return facts
+    sl = slices[0]
+    k = sl.bound
+    lo = it.lb(k)
+    if lo is None or lo < 0:
+        facts.bound_why = f'the slice bound `{src(sl.node)}` may be negative (a negative bound cuts from the end: no length bound)'
+        return facts
+    # len(slice) <= max(floor, E) with E = M - sum(len(t_i)); parts that E subtracts cancel out
+    floor, inner = 0, k
+    if k.kind == 'max':
+        consts = [x.a for x in k.a if x.kind == 'const']
+        lins = [x for x in k.a if x.kind in ('lin',)]
+        if len(k.a) == 2 and len(consts) == 1 and len(lins) == 1:
+            floor, inner = max(0, consts[0]), lins[0]
+    lp = _lin_parts(inner)
+    matched, unmatched = [], []
+    if lp is not None:
+        terms = dict(lp[1])
+        for p in others:
+            if p.term is not None and terms.get(p.term) == -1:
+                matched.append(p)
+                del terms[p.term]
+            else:
+                unmatched.append(p)
+        inner_ub = it.ub(i_lin(lp[0], terms))
+    else:
+        unmatched = list(others)
+        inner_ub = it.ub(inner)
+    if inner_ub is None:
+        facts.bound_why = 'the slice bound has no upper bound'
+        return facts
+    ms = [maxlen(p.val) for p in matched]
+    us = [maxlen(p.val) for p in unmatched]
+    if None in ms or None in us:
+        bad = [p for p in matched + unmatched if maxlen(p.val) is None][0]
+        facts.bound_why = f'part `{src(bad.node)}` is unbounded'
+        return facts
+    facts.name_bound = max(floor + sum(ms), inner_ub) + sum(us)
+    facts.bound_why = (f'len(slice) <= max({floor}, {inner_ub} - parts subtracted in the bound); subtracted parts <= {sum(ms)}, '
+                       f'other parts <= {sum(us)}')
+    return facts
+
+
+# ====================================================================================== locations in bodies/patches/essences
+VIEW_ATTRS = {'metadata': 'metadata', 'meta': 'metadata', 'status': 'status', 'spec': 'spec', 'annotations': 'annotations',
+              'labels': 'labels'}
+WRAPPERS = {'typing.cast', 'cast', 'copy.deepcopy', 'copy.copy', 'dict', 'list', 'set', 'frozenset', 'tuple',
+            'kopf._cogs.structs.bodies.Body', 'kopf._cogs.structs.bodies.RawBody'}
+MUTATING_METHODS = {'update', 'setdefault', 'append', 'extend', 'insert', 'pop', 'popitem', 'clear', 'remove', '__setitem__', '__delitem__'}
+
+
+def param_names(f: FuncInfo) -> set[str]:
+    return {a.arg for a in f.params()}
+
+
+def local_defs(f: FuncInfo, name: str) -> list[tuple[str, ast.AST]]:
+    """('assign', value) / ('for', iterable) / ('other', node) for every binding of the local ``name`` in ``f``."""
+    out: list[tuple[str, ast.AST]] = []
+    for n in walk_no_defs(f.node):
+        if isinstance(n, ast.Assign):
+            for t in n.targets:
+                if isinstance(t, ast.Name) and t.id == name:
+                    out.append(('assign', n.value))
+                elif any(isinstance(x, ast.Name) and x.id == name and isinstance(x.ctx, ast.Store) for x in ast.walk(t)):
+                    out.append(('other', n))
+        elif isinstance(n, ast.AnnAssign) and isinstance(n.target, ast.Name) and n.target.id == name and n.value is not None:
+            out.append(('assign', n.value))
+        elif isinstance(n, ast.AugAssign) and isinstance(n.target, ast.Name) and n.target.id == name:
+            out.append(('other', n))
+        elif isinstance(n, (ast.For, ast.AsyncFor)):
+            if isinstance(n.target, ast.Name) and n.target.id == name:
+                out.append(('for', n.iter))
+            elif any(isinstance(x, ast.Name) and x.id == name for x in ast.walk(n.target)):
+                out.append(('other', n))
+        elif isinstance(n, (ast.With, ast.AsyncWith)):
+            for it in n.items:
+                if it.optional_vars is not None and any(isinstance(x, ast.Name) and x.id == name for x in ast.walk(it.optional_vars)):
+                    out.append(('other', n))
+    return out
+
+
+def single_def(f: FuncInfo, name: str) -> Optional[tuple[str, ast.AST]]:
+    ds = local_defs(f, name)
+    return ds[0] if len(ds) == 1 else None
+
+
+def unwrap(repo: Repo, f: FuncInfo, e: ast.AST) -> tuple[ast.AST, bool]:
+    """Strip cast()/deepcopy()/dict()/Body() wrappers; second result: a copy was taken."""
+    copied = False
+    while isinstance(e, ast.Call):
+        r = repo.resolve(f.module, e.func) or ''
+        if r in ('typing.cast', 'cast') and len(e.args) == 2:
+            e = e.args[1]
+        elif r in WRAPPERS and len(e.args) == 1 and not e.keywords:
+            copied = copied or r.startswith('copy.')
+            e = e.args[0]
+        else:
+            break
+    return e, copied
+
+
+def is_make_keys(repo: Repo, f: FuncInfo, e: ast.AST) -> bool:
+    return isinstance(e, ast.Call) and any(n.endswith('.make_keys') for n in repo.callee_names(f, e))
+
+
+def arg_desc(f: FuncInfo, e: Optional[ast.AST]) -> tuple:
+    if e is None:
+        return ('absent',)
+    if isinstance(e, ast.Name) and e.id in param_names(f) and not local_defs(f, e.id):
+        return ('param', e.id)
+    if isinstance(e, ast.Attribute) and isinstance(e.value, ast.Name) and e.value.id == 'self':
+        return ('self', e.attr)
+    if isinstance(e, ast.Constant):
+        return ('const', e.value)
+    return ('expr', src(e))
+
+
+def make_keys_desc(repo: Repo, f: FuncInfo, call: ast.Call) -> tuple:
+    a0 = call.args[0] if call.args else kwarg(call, 'key')
+    body = kwarg(call, 'body', 1)
+    return ('make_keys', arg_desc(f, a0), arg_desc(f, body))
+
+
+def key_desc(repo: Repo, f: FuncInfo, e: ast.AST, depth: int = 0) -> tuple:
+    e, _ = unwrap(repo, f, e)
+    if isinstance(e, ast.Constant):
+        return ('lit', e.value) if isinstance(e.value, str) else ('const', e.value)
+    if isinstance(e, ast.Name):
+        ds = local_defs(f, e.id)
+        if not ds and e.id in param_names(f):
+            return ('param', e.id)
+        if len(ds) == 1 and depth < 4:
+            kind, v = ds[0]
+            if kind == 'for':
+                it, _ = unwrap(repo, f, v)
+                kd = key_desc(repo, f, it, depth + 1)
+                return kd if kd[0] == 'make_keys' else ('each', kd)
+            if kind == 'assign':
+                return key_desc(repo, f, v, depth + 1)
+        return ('expr', e.id)
+    if isinstance(e, ast.JoinedStr):
+        parts = []
+        for v in e.values:
+            if isinstance(v, ast.Constant):
+                parts.append(('lit', str(v.value)))
+            elif isinstance(v, ast.FormattedValue):
+                parts.append(key_desc(repo, f, v.value, depth + 1))
+        return ('fstr', tuple(parts))
+    if isinstance(e, ast.Attribute) and isinstance(e.value, ast.Name) and e.value.id == 'self':
+        return ('self', e.attr)
+    if is_make_keys(repo, f, e):
+        return make_keys_desc(repo, f, e)  # type: ignore[arg-type]
+    return ('expr', src(e))
+
+
+def segs_to_loc(segs: list) -> tuple:
+    if len(segs) >= 3 and segs[0] == ('lit', 'metadata') and segs[1] == ('lit', 'annotations'):
+        return ('ann', segs[2]) if len(segs) == 3 else ('path', tuple(segs))
+    return ('path', tuple(segs))
+
+
+def loc_desc(repo: Repo, f: FuncInfo, e: ast.AST, depth: int = 0) -> tuple:
+    """Abstract location named by a field specification expression (argument of dicts.ensure/resolve/remove)."""
+    e, _ = unwrap(repo, f, e)
+    if isinstance(e, ast.Name):
+        ds = local_defs(f, e.id)
+        if not ds and e.id in param_names(f):
+            return ('param', e.id)
+        if len(ds) == 1 and depth < 4:
+            kind, v = ds[0]
+            if kind == 'assign':
+                return loc_desc(repo, f, v, depth + 1)
+            if kind == 'for':
+                return ('each', loc_desc(repo, f, v, depth + 1))
+        return ('expr', e.id)
+    if isinstance(e, (ast.List, ast.Tuple)):
+        return segs_to_loc([key_desc(repo, f, x) for x in e.elts])
+    if isinstance(e, ast.BinOp) and isinstance(e.op, ast.Add) and isinstance(e.right, (ast.Tuple, ast.List)):
+        return ('sub', loc_desc(repo, f, e.left, depth + 1), tuple(key_desc(repo, f, x) for x in e.right.elts))
+    if isinstance(e, ast.Attribute) and isinstance(e.value, ast.Name) and e.value.id == 'self':
+        return ('selfattr', e.attr)
+    if isinstance(e, ast.Constant) and isinstance(e.value, str):
+        return segs_to_loc([('lit', s) for s in e.value.split('.')])
+    return ('expr', src(e))
+
+
+def root_kind(repo: Repo, f: FuncInfo, e: ast.AST, depth: int = 0) -> str:
+    """patch | body | essence | other -- what kind of object an expression denotes (types first, then local flow)."""
+    e, copied = unwrap(repo, f, e)
+    t = repo.type_of(f, e) if isinstance(e, (ast.Name, ast.Attribute, ast.Call)) else None
+    if t == PATCH_CLS:
+        return 'patch'
+    if t == BODY_CLS:
+        return 'essence' if copied else 'body'
+    if t and t.endswith('bodies.BodyEssence'):
+        return 'essence'
+    if t and t.endswith('bodies.RawBody'):
+        return 'body'
+    if isinstance(e, ast.Call) and isinstance(e.func, ast.Attribute) and e.func.attr in ('build', 'clear'):
+        return 'essence'
+    if isinstance(e, ast.Name) and depth < 4:
+        kinds = set()
+        for kind, v in local_defs(f, e.id):
+            if kind == 'assign':
+                kinds.add(root_kind(repo, f, v, depth + 1))
+        kinds.discard('other')
+        if len(kinds) == 1:
+            k = kinds.pop()
+            return 'essence' if copied and k == 'body' else k
+        if e.id in param_names(f):
+            for a in f.params():
+                if a.arg == e.id and a.annotation is not None and 'Essence' in src(a.annotation):
+                    return 'essence'
+    return 'other'
+
+
+def chain_path(repo: Repo, f: FuncInfo, e: ast.AST, depth: int = 0) -> tuple[ast.AST, list]:
+    """(root expression, path segments) of a container expression: subscripts, .get()/.setdefault() steps, the
+    metadata/status/spec/annotations/labels views of bodies and patches, and local aliases of such chains."""
+    e, _ = unwrap(repo, f, e)
+    if isinstance(e, ast.Subscript) and not isinstance(e.slice, ast.Slice):
+        root, segs = chain_path(repo, f, e.value, depth)
+        return root, segs + [key_desc(repo, f, e.slice)]
+    if isinstance(e, ast.Call) and isinstance(e.func, ast.Attribute) and e.func.attr in ('get', 'setdefault') and e.args:
+        root, segs = chain_path(repo, f, e.func.value, depth)
+        if root_kind(repo, f, root) != 'other':
+            return root, segs + [key_desc(repo, f, e.args[0])]
+        return e, []
+    if isinstance(e, ast.Attribute) and e.attr in VIEW_ATTRS:
+        root, segs = chain_path(repo, f, e.value, depth)
+        if root_kind(repo, f, root) in ('patch', 'body'):
+            return root, segs + [('lit', VIEW_ATTRS[e.attr])]
+        return e, []
+    if isinstance(e, ast.Name) and depth < 4:
+        d = single_def(f, e.id)
+        if d is not None and d[0] == 'assign':
+            root, segs = chain_path(repo, f, d[1], depth + 1)
+            if segs:
+                return root, segs
+            r2, copied = unwrap(repo, f, d[1])
+            if isinstance(r2, ast.Name) and r2.id != e.id and not copied:
+                return chain_path(repo, f, r2, depth + 1)
+    return e, []
+
+
+@dataclass
+class Access:
+    f: FuncInfo
+    node: ast.AST
+    root: str            # patch | body | essence
+    op: str              # read | set | drop | merge | fn
+    loc: tuple
+    root_expr: Optional[ast.AST] = None
+    value: Optional[ast.AST] = None
+
+    @property
+    def where(self) -> str:
+        return self.f.loc(self.node)
+
+
+def accesses(repo: Repo, f: FuncInfo) -> list[Access]:
+    """Every read/write of a location in a patch, body or essence inside ``f`` (selected by type and resolved callee)."""
+    out: list[Access] = []
+    parent = f.module.parent
+    for n in walk_no_defs(f.node, include_lambdas=True):
+        if isinstance(n, ast.Call):
+            for name, op in (('ensure', 'set'), ('remove', 'drop'), ('resolve', 'read')):
+                if is_call_to(repo, f, n, f'{DICTS}.{name}') and len(n.args) + len(n.keywords) >= 2:
+                    target = n.args[0] if n.args else kwarg(n, 'd')
+                    field = n.args[1] if len(n.args) > 1 else kwarg(n, 'field')
+                    if target is None or field is None:
+                        continue
+                    rk = root_kind(repo, f, target)
+                    if rk != 'other':
+                        val = n.args[2] if len(n.args) > 2 else kwarg(n, 'value')
+                        out.append(Access(f, n, rk, op, loc_desc(repo, f, field), target, val))
+            if isinstance(n.func, ast.Attribute):
+                m = n.func.attr
+                recv = n.func.value
+                if m == 'get' and n.args and not isinstance(parent.get(n), ast.Attribute):
+                    # container.get(key) on the result of dicts.resolve(x, field, {}) reads field + (key,)
+                    r0, _ = unwrap(repo, f, recv)
+                    if isinstance(r0, ast.Name):
+                        d = single_def(f, r0.id)
+                        if d is not None and d[0] == 'assign' and is_call_to(repo, f, d[1], f'{DICTS}.resolve'):
+                            c = d[1]
+                            rk = root_kind(repo, f, c.args[0]) if c.args else 'other'  # type: ignore[attr-defined]
+                            if rk != 'other':
+                                out.append(Access(f, n, rk, 'read', ('sub', loc_desc(repo, f, c.args[1]), (key_desc(repo, f, n.args[0]),)), c.args[0]))  # type: ignore[attr-defined]
+                                continue
+                    root, segs = chain_path(repo, f, n)
+                    rk = root_kind(repo, f, root)
+                    if segs and rk != 'other':
+                        out.append(Access(f, n, rk, 'read', segs_to_loc(segs), root))
+                elif m in MUTATING_METHODS and not isinstance(parent.get(n), (ast.Attribute, ast.Subscript)):
+                    root, segs = chain_path(repo, f, recv)
+                    rk = root_kind(repo, f, root)
+                    if rk == 'other':
+                        # patch.fns.append(fn)
+                        if isinstance(recv, ast.Attribute) and recv.attr == 'fns' and root_kind(repo, f, recv.value) == 'patch' and m in ('append', 'extend', 'insert'):
+                            out.append(Access(f, n, 'patch', 'fn', ('fns',), recv.value, n.args[-1] if n.args else None))
+                        continue
+                    if m == 'setdefault' and n.args:
+                        out.append(Access(f, n, rk, 'set', segs_to_loc(segs + [key_desc(repo, f, n.args[0])]), root, n.args[1] if len(n.args) > 1 else None))
+                    elif m in ('update',):
+                        out.append(Access(f, n, rk, 'merge', segs_to_loc(segs + [('any',)]), root, n.args[0] if n.args else None))
+                    elif m in ('pop', 'popitem', 'clear', 'remove', '__delitem__'):
+                        out.append(Access(f, n, rk, 'drop', segs_to_loc(segs + ([key_desc(repo, f, n.args[0])] if n.args else [('any',)])), root))
+                    else:
+                        out.append(Access(f, n, rk, 'set', segs_to_loc(segs + [('any',)]), root))
+        elif isinstance(n, ast.Subscript) and isinstance(n.ctx, (ast.Store, ast.Del)):
+            root, segs = chain_path(repo, f, n)
+            rk = root_kind(repo, f, root)
+            if rk != 'other' and segs:
+                st = repo.stmt_of(f.module, n)
+                val = st.value if isinstance(st, (ast.Assign, ast.AnnAssign)) else None
+                out.append(Access(f, n, rk, 'set' if isinstance(n.ctx, ast.Store) else 'drop', segs_to_loc(segs), root, val))
+        elif isinstance(n, ast.AugAssign) and isinstance(n.target, (ast.Name, ast.Attribute)):
+            rk = root_kind(repo, f, n.target)
+            if rk != 'other':
+                if isinstance(n.value, ast.Dict) and all(k is not None for k in n.value.keys):
+                    for k in n.value.keys:
+                        out.append(Access(f, n, rk, 'merge', segs_to_loc([key_desc(repo, f, k), ('any',)]), n.target, n.value))
+                else:
+                    out.append(Access(f, n, rk, 'merge', ('path', (('any',),)), n.target, n.value))
+    return out
+
+
+def fmt_loc(loc: tuple) -> str:
+    k = loc[0]
+    if k == 'ann':
+        return f'metadata.annotations[{fmt_loc(loc[1])}]'
+    if k == 'path':
+        return '.'.join(fmt_loc(s) for s in loc[1])
+    if k == 'lit':
+        return str(loc[1])
+    if k == 'any':
+        return '*'
+    if k == 'make_keys':
+        return f'make_keys({fmt_loc(loc[1])}, body={fmt_loc(loc[2])})'
+    if k in ('param', 'self', 'selfattr'):
+        return ('self.' if k != 'param' else '') + str(loc[1])
+    if k == 'sub':
+        return f'{fmt_loc(loc[1])} + ({", ".join(fmt_loc(s) for s in loc[2])},)'
+    if k == 'fstr':
+        return 'f"' + ''.join(p[1] if p[0] == 'lit' else '{' + fmt_loc(p) + '}' for p in loc[1]) + '"'
+    if k == 'each':
+        return f'each of {fmt_loc(loc[1])}'
+    return str(loc[1]) if len(loc) > 1 else k
+
+
+# ====================================================================================== erase footprint of build()/clear()
+@dataclass
+class Erase:
+    f: FuncInfo
+    node: ast.AST
+    kind: str        # path | loc | ann-keys | ann-prefix | ann-marked | ann-const | restore | restore-param | chain | unknown
+    desc: Any = None
+
+    def __str__(self) -> str:
+        d = self.desc
+        if self.kind in ('path', 'restore'):
+            return f'{self.kind} {".".join(str(x) for x in d)}'
+        if self.kind in ('loc', 'ann-keys', 'ann-prefix'):
+            return f'{self.kind} {fmt_loc(d)}'
+        return f'{self.kind} {d}'
+
+
+def _guards_of(f: FuncInfo, node: ast.AST, stop: ast.AST) -> list[ast.AST]:
+    """Tests of the `if` arms enclosing ``node`` (body side) up to the statement ``stop``."""
+    out = []
+    parent = f.module.parent
+    child, p = node, parent.get(node)
+    while p is not None and p is not stop:
+        if isinstance(p, ast.If) and any(child is s for s in p.body):
+            out.append(p.test)
+        child, p = p, parent.get(p)
+    return out
+
+
+def _enclosing_for(f: FuncInfo, node: ast.AST) -> Optional[ast.For]:
+    p = f.module.parent.get(node)
+    while p is not None and p is not f.node:
+        if isinstance(p, ast.For):
+            return p
+        p = f.module.parent.get(p)
+    return None
+
+
+def _startswith_prefix(repo: Repo, f: FuncInfo, e: ast.AST, var: str) -> Optional[ast.AST]:
+    """``var.startswith(f'{P}/')`` -> the expression P."""
+    if isinstance(e, ast.Call) and isinstance(e.func, ast.Attribute) and e.func.attr == 'startswith' and isinstance(e.func.value, ast.Name) \
+            and e.func.value.id == var and len(e.args) == 1 and isinstance(e.args[0], ast.JoinedStr):
+        vs = e.args[0].values
+        if len(vs) == 2 and isinstance(vs[0], ast.FormattedValue) and isinstance(vs[1], ast.Constant) and vs[1].value == '/':
+            return vs[0].value
+    return None
+
+
+def _conjuncts(e: ast.AST) -> list[ast.AST]:
+    if isinstance(e, ast.BoolOp) and isinstance(e.op, ast.And):
+        return [c for v in e.values for c in _conjuncts(v)]
+    return [e]
+
+
+def _is_essence_annotations(repo: Repo, f: FuncInfo, e: ast.AST) -> bool:
+    e, _ = unwrap(repo, f, e)
+    root, segs = chain_path(repo, f, e)
+    return segs == [('lit', 'metadata'), ('lit', 'annotations')] and root_kind(repo, f, root) in ('essence', 'body')
+
+
+def erasures(repo: Repo, f: FuncInfo) -> list[Erase]:
+    """The erase/restore rules a build()/clear() method applies to the essence (its own statements only)."""
+    out: list[Erase] = []
+    for a in accesses(repo, f):
+        if a.root != 'essence' or a.op == 'read':
+            continue
+        if a.op in ('set', 'merge'):
+            segs = a.loc[1] if a.loc[0] == 'path' else (('lit', 'metadata'), ('lit', 'annotations'), a.loc[1])
+            out.append(Erase(f, a.node, 'restore', tuple(s[1] if s[0] == 'lit' else '*' for s in segs)))
+            continue
+        loc = a.loc
+        if loc[0] == 'path' and all(s[0] == 'lit' for s in loc[1]):
+            out.append(Erase(f, a.node, 'path', tuple(s[1] for s in loc[1])))
+        elif loc[0] in ('selfattr', 'each', 'sub', 'param') and not (loc[0] == 'each' and loc[1][0] not in ('selfattr',)):
+            out.append(Erase(f, a.node, 'loc', loc))
+        elif loc[0] == 'ann' and loc[1][0] == 'each':
+            loop = _enclosing_for(f, a.node)
+            var = loop.target.id if loop is not None and isinstance(loop.target, ast.Name) else None
+            guards = _guards_of(f, a.node, loop) if loop is not None else []
+            kind, desc = 'unknown', src(a.node)
+            if var is not None and len(guards) == 1:
+                g = guards[0]
+                if isinstance(g, ast.Call) and dotted(g.func) == 'any' and len(g.args) == 1 and isinstance(g.args[0], ast.GeneratorExp) \
+                        and len(g.args[0].generators) == 1 and not g.args[0].generators[0].ifs:
+                    gen = g.args[0].generators[0]
+                    pexpr = _startswith_prefix(repo, f, g.args[0].elt, var)
+                    if pexpr is not None and isinstance(gen.target, ast.Name) and isinstance(pexpr, ast.Name) and pexpr.id == gen.target.id:
+                        it, _ = unwrap(repo, f, gen.iter)
+                        if isinstance(it, ast.Name):
+                            d = single_def(f, it.id)
+                            it = d[1] if d is not None and d[0] == 'assign' else it
+                        if isinstance(it, ast.Call) and any(n.endswith('._detect_marked_prefixes') for n in repo.callee_names(f, it)) \
+                                and it.args and _is_essence_annotations(repo, f, it.args[0]):
+                            kind, desc = 'ann-marked', 'prefixes recognised by _detect_marked_prefixes'
+                elif isinstance(g, ast.Compare) and len(g.ops) == 1 and isinstance(g.ops[0], ast.Eq) and isinstance(g.left, ast.Name) \
+                        and g.left.id == var and isinstance(g.comparators[0], ast.Constant):
+                    kind, desc = 'ann-const', g.comparators[0].value
+            out.append(Erase(f, a.node, kind, desc))
+        else:
+            out.append(Erase(f, a.node, 'unknown', fmt_loc(loc)))
+    for c in calls_in(f.node):
+        names = repo.callee_names(f, c)
+        if any(n.endswith('StorageStanzaCleaner.remove_annotations') for n in names) and len(c.args) == 2:
+            keys, _ = unwrap(repo, f, c.args[1])
+            if isinstance(keys, ast.Name):
+                d = single_def(f, keys.id)
+                keys = unwrap(repo, f, d[1])[0] if d is not None and d[0] == 'assign' else keys
+            if is_make_keys(repo, f, keys):
+                out.append(Erase(f, c, 'ann-keys', make_keys_desc(repo, f, keys)))  # type: ignore[arg-type]
+            elif isinstance(keys, (ast.SetComp, ast.ListComp, ast.GeneratorExp)) and len(keys.generators) == 1 \
+                    and isinstance(keys.generators[0].target, ast.Name) and isinstance(keys.elt, ast.Name) \
+                    and keys.elt.id == keys.generators[0].target.id and _is_essence_annotations(repo, f, keys.generators[0].iter):
+                var = keys.elt.id
+                conj = [x for t in keys.generators[0].ifs for x in _conjuncts(t)]
+                prefixes = [p for p in (_startswith_prefix(repo, f, x, var) for x in conj) if p is not None]
+                extra = [x for x in conj if _startswith_prefix(repo, f, x, var) is None
+                         and not (len(prefixes) == 1 and src(x) == src(prefixes[0]))]   # `P and key.startswith(f'{P}/')`
+                if len(prefixes) == 1 and not extra:
+                    out.append(Erase(f, c, 'ann-prefix', arg_desc(f, prefixes[0])))
+                else:
+                    out.append(Erase(f, c, 'unknown', f'remove_annotations of {src(keys)}'))
+            else:
+                out.append(Erase(f, c, 'unknown', f'remove_annotations of {src(keys)}'))
+        elif is_call_to(repo, f, c, f'{DICTS}.cherrypick'):
+            dst = kwarg(c, 'dst', 1)
+            fields = kwarg(c, 'fields', 2)
+            if dst is not None and root_kind(repo, f, dst) == 'essence' and fields is not None:
+                if isinstance(fields, (ast.List, ast.Tuple)) and all(isinstance(x, ast.Constant) and isinstance(x.value, str) for x in fields.elts):
+                    for x in fields.elts:
+                        out.append(Erase(f, x, 'restore', tuple(x.value.split('.'))))  # type: ignore[attr-defined]
+                elif isinstance(fields, ast.Name) and fields.id in param_names(f):
+                    out.append(Erase(f, c, 'restore-param', fields.id))
+                else:
+                    out.append(Erase(f, c, 'unknown', f'cherrypick of {src(fields)}'))
+        elif isinstance(c.func, ast.Attribute) and c.func.attr in ('build', 'clear'):
+            recv = c.func.value
+            if isinstance(recv, ast.Call) and dotted(recv.func) == 'super':
+                out.append(Erase(f, c, 'chain', 'super'))
+            elif isinstance(recv, ast.Name):
+                d = single_def(f, recv.id)
+                if d is not None and d[0] == 'for' and dotted(d[1]) == 'self.storages':
+                    out.append(Erase(f, c, 'chain', 'substorages'))
+                else:
+                    out.append(Erase(f, c, 'chain', src(recv)))
+    return out
+
+
+def super_method(repo: Repo, cls_qual: str, f: FuncInfo) -> Optional[FuncInfo]:
+    """The method ``super().<name>`` resolves to inside ``f`` for an instance of ``cls_qual``."""
+    mro = repo.mro(cls_qual)
+    if f.cls is None or f.cls.qualname not in mro:
+        return None
+    for c in mro[mro.index(f.cls.qualname) + 1:]:
+        ci = repo.classes.get(c)
+        if ci is not None and f.name in ci.methods:
+            return ci.methods[f.name]
+    return None
+
+
+def footprint(repo: Repo, cls_qual: str, method: str) -> list[Erase]:
+    """Erase rules applied by ``cls.method`` including the super() chain it calls."""
+    f = repo.find_method(cls_qual, method)
+    out: list[Erase] = []
+    seen = set()
+    while f is not None and f.qualname not in seen:
+        seen.add(f.qualname)
+        es = erasures(repo, f)
+        out.extend(es)
+        f = super_method(repo, cls_qual, f) if any(e.kind == 'chain' and e.desc == 'super' for e in es) else None
+    return out
+
+
+# ====================================================================================== storage classes
+def storage_classes(repo: Repo, base: str) -> list[str]:
+    return [c for c in repo.subclasses(base)]
+
+
+def abstract_methods(repo: Repo, base: str) -> list[str]:
+    ci = repo.cls(base)
+    return [m for m, f in ci.methods.items() if any(d.endswith('abstractmethod') for d in f.decorators)]
+
+
+def is_noop(f: FuncInfo) -> bool:
+    body = [s for s in f.node.body if not (isinstance(s, ast.Expr) and isinstance(s.value, ast.Constant))]  # type: ignore[attr-defined]
+    return all(isinstance(s, ast.Pass) for s in body)
+
+
+def storages_loop(f: FuncInfo) -> list[ast.For]:
+    return [n for n in walk_no_defs(f.node) if isinstance(n, ast.For) and dotted(n.iter) == 'self.storages' and isinstance(n.target, ast.Name)]
+
+
+def is_forwarder(repo: Repo, cls_qual: str) -> bool:
+    ci = repo.classes[cls_qual]
+    return any('storages' in repo.classes[c].fields for c in repo.mro(cls_qual) if c in repo.classes) and \
+        not any(accesses(repo, f) for m, f in ci.methods.items() if m in ('fetch', 'store', 'purge', 'touch'))
+
+
+def method_locations(repo: Repo, f: FuncInfo) -> set:
+    """Locations of the object/patch a storage method addresses (container reads that only serve an element access dropped)."""
+    accs = [a for a in accesses(repo, f) if a.root in ('body', 'patch')]
+    locs = {a.loc for a in accs}
+    return {l for l in locs if not any(o[0] == 'sub' and o[1] == l for o in locs)}
+
+
+def covers(e: Erase, loc: tuple, *, prefixed: bool) -> bool:
+    """Does the erase rule remove the location from the essence?"""
+    if loc[0] == 'ann':
+        if e.kind == 'ann-keys':
+            return e.desc == loc[1]
+        if e.kind == 'ann-prefix':
+            return prefixed and loc[1][0] == 'make_keys' and e.desc == ('self', 'prefix')
+        return False
+    if e.kind == 'loc':
+        return e.desc == loc or (loc[0] == 'sub' and e.desc == loc[1])
+    return False
+
+
+# ---------------------------------------------------------------------------------------------- R16.1
+def check_locations(ctx: Ctx, prefixed: bool) -> None:
+    repo = ctx.repo
+    n_methods = 0
+    for base, ops, eraser in ((f'{PROG}.ProgressStorage', ('fetch', 'store', 'purge'), 'clear'),
+                              (f'{DIFB}.DiffBaseStorage', ('fetch', 'store'), 'build')):
+        for c in storage_classes(repo, base):
+            ci = repo.classes[c]
+            if is_forwarder(repo, c):
+                continue
+            short = c.rsplit('.', 1)[-1]
+            fams: dict[str, set] = {}
+            for m in ops:
+                f = repo.find_method(c, m)
+                if f is None or f.cls is None or f.cls.qualname == base or is_noop(f):
+                    continue
+                ctx.analysed(f)
+                n_methods += 1
+                locs = method_locations(repo, f)
+                fams[m] = locs
+                ctx.ob('R16.1', f'{short}.{m} addresses exactly one location family of the object', len(locs) == 1, loc=f.loc(),
+                       construct=f'{c}.{m}:keys:single-location', detail='; '.join(sorted(fmt_loc(l) for l in locs)) or 'no location addressed')
+            if not fams:
+                continue
+            allv = set().union(*fams.values())
+            ctx.ob('R16.1', f'{short}: {"/".join(fams)} derive the record location identically ({"; ".join(sorted(fmt_loc(l) for l in allv))[:150]})',
+                   len(allv) == 1 and all(len(v) == 1 for v in fams.values()), loc=ci.module.relpath() + f':{ci.node.lineno}',
+                   construct=f'{c}:sibling:record-location',
+                   detail='; '.join(f'{m}: {sorted(fmt_loc(l) for l in v)}' for m, v in fams.items()))
+            rec = next(iter(allv)) if len(allv) == 1 else None
+            if rec is not None and rec[0] == 'ann' and rec[1][0] == 'make_keys':
+                ctx.ob('R16.1', f'{short}: keys are derived for the object at hand (make_keys(..., body=<the method\'s body>))',
+                       rec[1][2] == ('param', 'body'), loc=ci.module.relpath() + f':{ci.node.lineno}', construct=f'{c}:sibling:keys-for-body',
+                       detail=fmt_loc(rec))
+            # the cleaning operation removes the same family
+            fp = footprint(repo, c, eraser)
+            ef = repo.find_method(c, eraser)
+            if rec is not None and ef is not None:
+                ctx.analysed(ef)
+                hit = [e for e in fp if covers(e, rec, prefixed=prefixed)]
+                ctx.ob('R16.1', f'{short}.{eraser} removes the location family that {"/".join(fams)} address', bool(hit), loc=ef.loc(),
+                       construct=f'{c}.{eraser}:sibling:erases-record-location',
+                       detail=f'record location {fmt_loc(rec)}; rules: {[str(e) for e in fp if e.kind not in ("restore", "chain")]}')
+            # touch: its own single location, distinct from the records
+            if 'Progress' in base:
+                t = repo.find_method(c, 'touch')
+                if t is not None and t.cls is not None and t.cls.qualname != base and not is_noop(t):
+                    ctx.analysed(t)
+                    n_methods += 1
+                    tl = method_locations(repo, t)
+                    ctx.ob('R16.1', f'{short}.touch reads and writes one location, distinct from the handler records', len(tl) == 1 and rec not in tl,
+                           loc=t.loc(), construct=f'{c}.touch:keys:single-location', detail='; '.join(sorted(fmt_loc(l) for l in tl)))
+                    if rec is not None and len(tl) == 1:
+                        tloc = next(iter(tl))
+                        same_space = (tloc[0] == rec[0] == 'ann' and tloc[1][0] == 'make_keys' and tloc[1][2] == rec[1][2]) or \
+                                     (tloc[0] == 'selfattr' and rec[0] in ('sub', 'selfattr'))
+                        ctx.ob('R16.1', f'{short}.touch uses the same addressing scheme as the records (same key forming / configured field)',
+                               same_space, loc=t.loc(), construct=f'{c}.touch:sibling:addressing', detail=f'{fmt_loc(tloc)} vs {fmt_loc(rec)}')
+    ctx.count('storage_methods', n_methods)
+    ctx.require_sites('R16.1', 'storage methods addressing object locations', n_methods, 12)
+
+
+# ---------------------------------------------------------------------------------------------- R16.2
+def _forward_check(repo: Repo, f: FuncInfo, m: str) -> tuple[bool, str]:
+    loops = storages_loop(f)
+    if len(loops) != 1:
+        return False, f'{len(loops)} loops over self.storages'
+    loop = loops[0]
+    var = loop.target.id  # type: ignore[attr-defined]
+    fcalls = [c for c in calls_in(loop) if isinstance(c.func, ast.Attribute) and c.func.attr == m and isinstance(c.func.value, ast.Name) and c.func.value.id == var]
+    if len(fcalls) != 1:
+        return False, f'{len(fcalls)} calls of <sub-storage>.{m} in the loop'
+    call = fcalls[0]
+    if call.args:
+        return False, 'positional arguments'
+    params = [a.arg for a in f.params()][1:]
+    st = repo.stmt_of(f.module, call)
+    inner = [n for s in loop.body for n in walk_no_defs(s)]
+    flow = [n for n in inner if isinstance(n, (ast.If, ast.Break, ast.Continue, ast.Return, ast.Try, ast.While, ast.For, ast.Raise, ast.IfExp, ast.Match))]
+    if loop.orelse:
+        return False, 'loop has an else clause'
+    kw = {k.arg: k.value for k in call.keywords if k.arg}
+    if any(k.arg is None for k in call.keywords):
+        return False, '** forwarding'
+    kind = 'read' if m == 'fetch' else ('transform' if m in ('clear', 'build') else 'write')
+    threaded = None
+    if kind == 'transform':
+        if not (isinstance(st, ast.Assign) and len(st.targets) == 1 and isinstance(st.targets[0], ast.Name) and st.value is call):
+            return False, 'the result of the sub-storage call is not kept'
+        threaded = st.targets[0].id
+    for p in params:
+        v = kw.get(p)
+        if kind == 'transform' and p in ('body', 'essence'):
+            inner_v = unwrap(repo, f, v)[0] if v is not None else None
+            if not (isinstance(inner_v, ast.Name) and inner_v.id == threaded):
+                return False, f'{p}= is not the result of the previous sub-storage ({src(v)})'
+            continue
+        if not (isinstance(v, ast.Name) and v.id == p):
+            return False, f'parameter {p} is not forwarded as {p}={p} ({src(v) or "missing"})'
+    extra = set(kw) - set(params)
+    if extra:
+        return False, f'extra keywords {sorted(extra)}'
+    after = f.node.body[f.node.body.index(loop) + 1:] if loop in f.node.body else None  # type: ignore[attr-defined]
+    if after is None:
+        return False, 'the loop is nested in another statement'
+    if kind == 'write':
+        if flow or not (isinstance(st, ast.Expr) and st.value is call):
+            return False, 'the forwarding call is conditional or its loop can be left early: ' + ', '.join(sorted({type(n).__name__ for n in flow}))
+        return True, ''
+    if kind == 'transform':
+        if flow:
+            return False, 'the chain is conditional or can be left early'
+        rets = [s for s in after if isinstance(s, ast.Return)]
+        if not (len(rets) == 1 and isinstance(rets[0].value, ast.Name) and rets[0].value.id == threaded):
+            return False, 'the chained result is not what is returned'
+        return True, ''
+    # read: first found
+    if not (isinstance(st, ast.Assign) and len(st.targets) == 1 and isinstance(st.targets[0], ast.Name)):
+        return False, 'the result of the sub-storage call is not kept'
+    res = st.targets[0].id
+    ifs = [n for n in flow if isinstance(n, ast.If)]
+    rets = [n for n in flow if isinstance(n, ast.Return)]
+    others = [n for n in flow if not isinstance(n, (ast.If, ast.Return))]
+    if others or len(ifs) != 1 or len(rets) != 1:
+        return False, 'not the first-found shape (one `if <result> is not None: return <result>`)'
+    t = ifs[0].test
+    ok_test = isinstance(t, ast.Compare) and len(t.ops) == 1 and isinstance(t.ops[0], ast.IsNot) and isinstance(t.left, ast.Name) and t.left.id == res \
+        and isinstance(t.comparators[0], ast.Constant) and t.comparators[0].value is None
+    ok_ret = rets[0] in ifs[0].body and isinstance(rets[0].value, (ast.Name, ast.Call)) and res in {n.id for n in ast.walk(rets[0].value) if isinstance(n, ast.Name)} \
+        and not ifs[0].orelse
+    if not (ok_test and ok_ret):
+        return False, 'the first non-None result is not what is returned'
+    final = [s for s in after if isinstance(s, ast.Return)]
+    if any(not (isinstance(s.value, ast.Constant) and s.value.value is None) and s.value is not None for s in final):
+        return False, 'falls back to something else than None'
+    return True, ''
+
+
+def check_dispatch(ctx: Ctx) -> None:
+    repo = ctx.repo
+    n = 0
+    for base in (f'{PROG}.ProgressStorage', f'{DIFB}.DiffBaseStorage'):
+        abstract = abstract_methods(repo, base)
+        ctx.require_sites('R16.2', f'{base.rsplit(".", 1)[-1]}: abstract operations', len(abstract), 2)
+        for c in storage_classes(repo, base):
+            short = c.rsplit('.', 1)[-1]
+            ci = repo.classes[c]
+            for m in abstract:
+                impl = repo.find_method(c, m)
+                ok = impl is not None and impl.cls is not None and impl.cls.qualname != base
+                n += 1
+                ctx.ob('R16.2', f'{short} overrides the abstract operation {m}()', ok, loc=f'{ci.module.relpath()}:{ci.node.lineno}',
+                       construct=f'{c}:dispatch:{m}')
+            if 'storages' in ci.fields:
+                for m in abstract + [x for x in ('build',) if x in ci.methods and x not in abstract]:
+                    f = ci.methods.get(m)
+                    if f is None:
+                        ctx.ob('R16.2', f'{short} forwards {m}() to its sub-storages', False, loc=f'{ci.module.relpath()}:{ci.node.lineno}',
+                               construct=f'{c}.{m}:dispatch:forward', detail='not defined in the fan-out class')
+                        continue
+                    ctx.analysed(f)
+                    ok, why = _forward_check(repo, f, m)
+                    how = 'the first sub-storage that has a value (reads)' if m == 'fetch' else \
+                        ('every sub-storage in a chain (cleaning)' if m in ('clear', 'build') else 'every sub-storage unconditionally with all arguments (writes)')
+                    ctx.ob('R16.2', f'{short}.{m} forwards to {how}', ok, loc=f.loc(), construct=f'{c}.{m}:dispatch:forward', detail=why)
+    ctx.count('override_checks', n)
+
+
+# ---------------------------------------------------------------------------------------------- R16.3 / R4.2 (STRDOM)
+def prefix_is_enforced(repo: Repo) -> tuple[bool, FuncInfo]:
+    """StorageKeyFormingConvention.__init__ raises when the prefix is empty."""
+    init = repo.fn(f'{FORMING}.__init__')
+    for n in walk_no_defs(init.node):
+        if isinstance(n, ast.If) and isinstance(n.test, ast.UnaryOp) and isinstance(n.test.op, ast.Not) and \
+                dotted(n.test.operand) in ('self.prefix', 'prefix') and any(isinstance(s, ast.Raise) for s in n.body):
+            return True, init
+    return False, init
+
+
+@dataclass
+class NameAnalysis:
+    interp: KeyInterp
+    facts: dict                       # method name -> KeyFacts
+    key_in: Any                       # the (possibly marked) key fed to the forming functions
+    forming: list                     # names of the forming methods make_keys draws its elements from
+    elements_ok: bool
+    enforced: bool
+
+
+def make_keys_sources(repo: Repo, f: FuncInfo) -> tuple[list[str], bool]:
+    """Methods whose results make up the elements of make_keys' return value; False if anything else may be returned."""
+    ok = True
+    names: list[str] = []
+
+    def elems(e: ast.AST, depth: int = 0) -> None:
+        nonlocal ok
+        if depth > 6:
+            ok = False
+            return
+        if isinstance(e, ast.BinOp) and isinstance(e.op, (ast.Add, ast.BitOr)):
+            elems(e.left, depth + 1); elems(e.right, depth + 1)
+        elif isinstance(e, ast.BinOp) and isinstance(e.op, (ast.Sub, ast.BitAnd)):
+            elems(e.left, depth + 1)
+        elif isinstance(e, ast.Call) and dotted(e.func) in ('list', 'set', 'tuple', 'frozenset', 'sorted') and len(e.args) == 1:
+            elems(e.args[0], depth + 1)
+        elif isinstance(e, (ast.List, ast.Tuple, ast.Set)):
+            for x in e.elts:
+                if isinstance(x, ast.Call) and isinstance(x.func, ast.Attribute) and isinstance(x.func.value, ast.Name) and x.func.value.id == 'self':
+                    names.append(x.func.attr)
+                else:
+                    ok = False
+        elif isinstance(e, ast.IfExp):
+            elems(e.body, depth + 1); elems(e.orelse, depth + 1)
+        elif isinstance(e, ast.Name):
+            ds = local_defs(f, e.id)
+            if not ds or any(k != 'assign' for k, _ in ds):
+                ok = False
+            for _, v in ds:
+                elems(v, depth + 1)
+        else:
+            ok = False
+    rets = [n for n in walk_no_defs(f.node) if isinstance(n, ast.Return)]
+    if not rets:
+        ok = False
+    for r in rets:
+        if r.value is None:
+            ok = False
+        else:
+            elems(r.value)
+    return sorted(set(names)), ok
+
+
+def analyse_names(repo: Repo) -> NameAnalysis:
+    enforced, _ = prefix_is_enforced(repo)
+    it = KeyInterp(repo, FORMING, prefix_nonempty=enforced)
+    mk = repo.fn(f'{FORMING}.make_keys')
+    forming, elements_ok = make_keys_sources(repo, mk)
+    key = input_key()
+    marker = it.method('mark_key')
+    # make_keys passes the key through mark_key when a body is given: both the plain and the marked key are formed
+    marks = [c for c in calls_in(mk.node) if isinstance(c.func, ast.Attribute) and c.func.attr == 'mark_key']
+    if marks and marker is not None:
+        marked = it.call(marker, [key], {})
+        key_in = it.join(key, marked) if isinstance(marked, SVal) else s_top()
+    else:
+        key_in = key
+    facts = {}
+    for m in forming:
+        if it.method(m) is not None:
+            facts[m] = analyse_key_fn(it, m, key_in)
+    return NameAnalysis(it, facts, key_in, forming, elements_ok, enforced)
+
+
+def check_names(ctx: Ctx, na: NameAnalysis) -> None:
+    repo = ctx.repo
+    it = na.interp
+    enforced, init = prefix_is_enforced(repo)
+    ctx.analysed(init)
+    ctx.ob('R16.3', 'annotation storages reject an empty prefix at construction (keys are always `<prefix>/<name>`)', enforced, loc=init.loc(),
+           construct=f'{FORMING}.__init__:config:prefix-nonempty')
+    mk = repo.fn(f'{FORMING}.make_keys')
+    ctx.analysed(mk)
+    ctx.ob('R16.3', f'make_keys returns nothing but results of the key-forming methods ({", ".join(na.forming)})', na.elements_ok and len(na.forming) >= 1,
+           loc=mk.loc(), construct=f'{FORMING}.make_keys:flow:elements')
+    # callers never override the length limit
+    for f, c, callee in it.calls:
+        g = repo.funcs.get(callee)
+        if g is not None and any(a.arg == 'max_length' for a in g.params()):
+            ctx.ob('R16.3', f'{f.name} calls {g.name} with the default length limit', len(c.args) <= 1 and kwarg(c, 'max_length') is None, loc=f.loc(c),
+                   construct=f'{f.qualname}:config:{g.name}(max_length)')
+    # the replacement table
+    safe = it.method('make_safe_key')
+    if safe is None:
+        raise AnalysisError(f'scope anchor: {FORMING}.make_safe_key not found')
+    ctx.analysed(safe)
+    sv = it.call(safe, [input_key()], {})
+    sc = None
+    if isinstance(sv, SVal):
+        sc = frozenset()
+        for a in sv.alts:
+            sc = None if sc is None or a.chars() is None else sc | a.chars()
+    bad = None if sc is None else sc - NAME_BODY
+    ctx.ob('R16.3', 'make_safe_key maps every character of the id alphabet [A-Za-z0-9_./<>-] into the name alphabet [A-Za-z0-9_.-] '
+           '(the replacement table covers `/`, `<`, `>`)', sc is not None and not bad, loc=safe.loc(), construct=f'{safe.qualname}:strdom:alphabet',
+           detail='result not analysable' if sc is None else f'characters left over: {_fmt_chars(bad)}')
+    # the hash suffix
+    suf = it.method('make_suffix')
+    if suf is not None:
+        ctx.analysed(suf)
+        v = it.call(suf, [input_key()], {})
+        if isinstance(v, SVal):
+            chars: Optional[frozenset] = frozenset()
+            last: Optional[frozenset] = frozenset()
+            his = []
+            for a in v.alts:
+                chars = None if chars is None or a.chars() is None else chars | a.chars()
+                last = None if last is None or a.last() is None else last | a.last()
+                his.append(a.maxlen)
+            ctx.ob('R16.3', 'make_suffix: characters of the hash suffix lie in [A-Za-z0-9_.-] (base64 with alternative characters, padding stripped)',
+                   chars is not None and chars <= NAME_BODY, loc=suf.loc(), construct=f'{suf.qualname}:strdom:alphabet',
+                   detail=_fmt_chars(None if chars is None else chars - NAME_BODY))
+            ctx.ob('R16.3', 'make_suffix: a non-empty suffix ends with an alphanumeric character (rstrip covers padding and both alternative characters)',
+                   last is not None and last <= ALNUM, loc=suf.loc(), construct=f'{suf.qualname}:strdom:last-alnum',
+                   detail=_fmt_chars(None if last is None else last - ALNUM))
+            hi = None if None in his else max(his)
+            ctx.ob('R16.3', f'make_suffix: the suffix has a fixed small length bound (found {hi})', hi is not None and hi < NAME_MAX, loc=suf.loc(),
+                   construct=f'{suf.qualname}:strdom:length')
+        else:
+            ctx.ob('R16.3', 'make_suffix: result is analysable as a string', False, loc=suf.loc(), construct=f'{suf.qualname}:strdom:alphabet')
+    # slices
+    seen = set()
+    for f, node, k, lo in it.slices:
+        if (f.qualname, id(node)) in seen:
+            continue
+        seen.add((f.qualname, id(node)))
+        ctx.ob('R16.3', f'{f.name}: the slice bound in `{src(node)}` is provably non-negative (a negative bound would cut from the end and '
+               'leave names of arbitrary length)', lo is not None and lo >= 0, loc=f.loc(node), construct=f'{f.qualname}:strdom:slice-bound-nonneg',
+               detail='' if lo is not None and lo >= 0 else f'lower bound of the bound expression: {lo if lo is not None else "none (it subtracts an unbounded length and is not clamped with max(0, ...))"}')
+    ctx.require_sites('R16.3', 'key forming: slices cutting the name', len(seen), 2, mk.loc())
+    for f, node, why in it.unsupported:
+        ctx.ob('R16.3', f'{f.name}: construct `{src(node, 60)}` is within the analysed string fragment', False, loc=f.loc(node),
+               construct=f'{f.qualname}:strdom:unsupported:{why}')
+    # per forming function
+    edge_bad = []
+    for m, fa in na.facts.items():
+        f = fa.fn
+        ctx.analysed(f)
+        ctx.ob('R16.3', f'{m}: every result has the form `<self.prefix>/<name>`', fa.prefixed, loc=f.loc(), construct=f'{f.qualname}:strdom:prefixed')
+        if not fa.prefixed:
+            continue
+        ctx.ob('R16.3', f'{m}: characters of the generated name lie in [A-Za-z0-9_.-]', fa.name_chars is not None and fa.name_chars <= NAME_BODY,
+               loc=f.loc(), construct=f'{f.qualname}:strdom:name-alphabet', detail=_fmt_chars(None if fa.name_chars is None else fa.name_chars - NAME_BODY))
+        ctx.ob('R16.3', f'{m}: the generated name is at most {NAME_MAX} characters long (bound found: {fa.name_bound})',
+               fa.name_bound is not None and fa.name_bound <= NAME_MAX, loc=f.loc(), construct=f'{f.qualname}:strdom:name-length', detail=fa.bound_why)
+        for side, cs in (('first', fa.name_first), ('last', fa.name_last)):
+            if cs is None or not cs <= ALNUM:
+                edge_bad.append(f'{m}: {side} character may be {_fmt_chars(None if cs is None else cs - ALNUM)}')
+    if na.facts:
+        ctx.ob('R16.3', 'generated annotation names begin and end with an alphanumeric character (Kubernetes qualified-name syntax)', not edge_bad,
+               loc=mk.loc(), construct=f'{FORMING}:strdom:name-edges-alphanumeric', detail='; '.join(edge_bad))
+    ctx.require_sites('R16.3', 'key-forming methods analysed', len(na.facts), 2, mk.loc())
+    # configured keys at their defaults belong to the alphabet the analysis assumed
+    for cq, param in ((f'{PROG}.AnnotationsProgressStorage', 'touch_key'), (f'{DIFB}.AnnotationsDiffBaseStorage', 'key'),
+                      (f'{PROG}.SmartProgressStorage', 'touch_key')):
+        init = repo.find_method(cq, '__init__')
+        if init is None:
+            continue
+        a = init.node.args  # type: ignore[attr-defined]
+        d = {p.arg: v for p, v in zip(a.kwonlyargs, a.kw_defaults) if v is not None}
+        v = d.get(param)
+        ok = isinstance(v, ast.Constant) and isinstance(v.value, str) and v.value != '' and set(v.value) <= ID_ALPHABET
+        ctx.ob('R16.3', f'{cq.rsplit(".", 1)[-1]}: the default {param}={src(v)} lies in the id alphabet the name analysis assumes', ok, loc=init.loc(),
+               construct=f'{cq}:config:{param}-alphabet')
+
+
+# ---------------------------------------------------------------------------------------------- R16.4
+PURE_BUILTINS = {'len', 'max', 'min', 'set', 'list', 'tuple', 'frozenset', 'dict', 'any', 'all', 'str', 'sorted', 'isinstance', 'bool', 'int'}
+PURE_METHODS = {'replace', 'rstrip', 'lstrip', 'strip', 'encode', 'decode', 'digest', 'hexdigest', 'items', 'get', 'join', 'format', 'lower', 'upper',
+                'startswith', 'endswith', 'keys', 'values'}
+PURE_LIBS = ('hashlib.', 'base64.')
+IMPURE = ('hash', 'id', 'object', 'time', 'random', 'uuid', 'os', 'datetime', 'secrets', 'socket', 'getpass', 'platform')
+
+
+def key_forming_closure(repo: Repo) -> list[FuncInfo]:
+    todo = ['make_keys']
+    seen: dict[str, FuncInfo] = {}
+    while todo:
+        m = todo.pop()
+        f = repo.find_method(FORMING, m)
+        if f is None or f.qualname in seen:
+            continue
+        seen[f.qualname] = f
+        for c in calls_in(f.node):
+            if isinstance(c.func, ast.Attribute) and isinstance(c.func.value, ast.Name) and c.func.value.id in ('self', 'cls'):
+                todo.append(c.func.attr)
+    return list(seen.values())
+
+
+def check_determinism(ctx: Ctx) -> None:
+    repo = ctx.repo
+    fns = key_forming_closure(repo)
+    ctx.require_sites('R16.4', 'key-forming methods reachable from make_keys', len(fns), 5)
+    own = {f.name for f in fns}
+    for f in fns:
+        ctx.analysed(f)
+        bad: list[str] = []
+        locals_ = param_names(f) | {n.id for n in ast.walk(f.node) if isinstance(n, ast.Name) and isinstance(n.ctx, ast.Store)}
+        call_funcs = {id(c.func) for c in calls_in(f.node)}
+        for c in calls_in(f.node):
+            fn = c.func
+            if isinstance(fn, ast.Attribute) and isinstance(fn.value, ast.Name) and fn.value.id in ('self', 'cls'):
+                if fn.attr not in own:
+                    bad.append(f'call of self.{fn.attr}')
+                continue
+            r = repo.resolve(f.module, fn)
+            if isinstance(fn, ast.Name):
+                if fn.id in locals_:
+                    bad.append(f'call of the local `{fn.id}`')
+                elif r not in PURE_BUILTINS:
+                    bad.append(f'call of {r or fn.id}')
+                continue
+            if r is not None and r.startswith(PURE_LIBS):
+                if r.startswith('hashlib.'):
+                    for k in c.keywords:
+                        if k.arg != 'digest_size' or not isinstance(k.value, ast.Constant):
+                            bad.append(f'{r}({k.arg}=...) is not a constant digest size')
+                continue
+            if r is not None and dotted(fn) and dotted(fn).split('.')[0] in f.module.imports:
+                bad.append(f'call of {r}')
+                continue
+            if isinstance(fn, ast.Attribute) and fn.attr in PURE_METHODS:
+                continue
+            bad.append(f'call of `{src(fn)}`')
+        for n in [x for st in f.node.body for x in walk_no_defs(st)]:  # type: ignore[attr-defined]
+            if isinstance(n, ast.Name) and isinstance(n.ctx, ast.Load) and n.id not in locals_ and id(n) not in call_funcs:
+                r = repo.resolve(f.module, n)
+                parent = f.module.parent.get(n)
+                if isinstance(parent, ast.Attribute) and id(parent) in call_funcs:
+                    continue      # module qualifier of a call, judged above
+                if n.id in ('self', 'cls', 'True', 'False', 'None'):
+                    continue
+                bad.append(f'reads the global `{r or n.id}`')
+            if isinstance(n, ast.Attribute) and isinstance(n.value, ast.Name) and n.value.id == 'self' and id(n) not in call_funcs \
+                    and n.attr not in ('prefix', 'v1'):
+                bad.append(f'reads self.{n.attr}')
+        ctx.ob('R16.4', f'{f.name}: the key depends only on its arguments, self.prefix/self.v1, blake2b and base64 (no hash(), id(), time, randomness, '
+               'environment): identical across restarts', not bad, loc=f.loc(), construct=f'{f.qualname}:config:deterministic', detail='; '.join(sorted(set(bad))))
+    # the digest input is the key itself
+    suf = repo.find_method(FORMING, 'make_suffix')
+    if suf is not None:
+        hcalls = [c for c in calls_in(suf.node) if (repo.resolve(suf.module, c.func) or '').startswith('hashlib.')]
+        ctx.require_sites('R16.4', 'make_suffix: digest call', len(hcalls), 1, suf.loc())
+        for c in hcalls:
+            srcs = {n.id for a in c.args for n in ast.walk(a) if isinstance(n, ast.Name)}
+            ctx.ob('R16.4', 'make_suffix: the digest is computed from the key argument only', bool(srcs) and srcs <= param_names(suf) - {'self'}, loc=suf.loc(c),
+                   construct=f'{suf.qualname}:flow:digest-input', detail=norm(c))
+
+
+def check(ctx: Ctx) -> None:
+    na = analyse_names(ctx.repo)
+    prefixed = bool(na.facts) and all(fa.prefixed for fa in na.facts.values()) and na.elements_ok
+    check_locations(ctx, prefixed)
+    check_dispatch(ctx)
+    check_names(ctx, na)
+    check_determinism(ctx)
+
+
+SPEC = PropSpec(
+    id='C16',
+    title='Persistence storages round-trip, isolate and produce valid annotation names',
+    technique='static analysis: sibling agreement of location descriptors per storage class (SIBLING/KEYS), exhaustive override and fan-out '
+              'forwarding shapes (DISPATCH), abstract string domain over the AST of the key-forming methods (STRDOM), allow-list of callees (CONFIG)',
+    level_text='Static analysis of the current source: per storage class fetch/store/purge derive one identical location descriptor and the class\'s '
+               'clear()/build() removes that family; every abstract operation is overridden in every concrete class and the Multi* classes forward '
+               'each operation to all sub-storages (writes, cleaning chains) or the first that has a value (reads); an abstract interpretation of '
+               'make_safe_key/make_suffix/make_v1_key/make_v2_key (character sets per segment, length bounds, linear slice bounds over len() terms) '
+               'proves: names over the id alphabet [A-Za-z0-9_./<>-] contain only [A-Za-z0-9_.-], every slice bound is non-negative, the name part '
+               'is at most 63 characters; the first/last-character clause is decided too (and fails: known finding D9); key forming calls nothing '
+               'but pure string operations, blake2b and base64. Decides these clauses, NOT read-back identity or injectivity.',
+    level_note='ids range over [A-Za-z0-9_./<>-]+; the prefix is the user\'s (non-empty, enforced by the constructor); base64/blake2b output '
+               'shapes as documented; DESIGN.md §3 (6)',
+    design_ref='DESIGN.md §4 C16',
+    explanation='SIBLING/KEYS over the storage methods (locations of dicts.ensure/resolve/remove and annotation views), DISPATCH(exhaustive) over the '
+                'abstract operations and the fan-out loops, STRDOM over the key-forming methods, CONFIG allow-list for determinism.',
+    not_decided='read-back identity, complete purge, isolation between prefixes, distinctness of long ids sharing a prefix (value/hash properties); '
+                'validity of the user-chosen prefix and the 253-character total.',
+    check=check,
+)
